@@ -200,6 +200,10 @@ class Bech32DecoderBase(ABC):
             Bech32ChecksumError: If the checksum is not valid
         """
 
+        # Only ASCII characters are allowed (e.g. U+212A KELVIN SIGN would be lower-cased to "k")
+        if not bech_str.isascii():
+            raise ValueError("Invalid bech32 format (non-ASCII characters)")
+
         # Check string length and case
         if AlgoUtils.IsStringMixed(bech_str):
             raise ValueError("Invalid bech32 format (string is mixed case)")
